@@ -1630,6 +1630,9 @@ class VacancyMediated(object):
             bVq = Qproj(biasVvec)
             biasSvec, biasVvec = np.dot(U, bSn), np.dot(U, bVn) + bVq
             etaVvec, etaSvec = Gapply(bVn, bVq), Gapply(bSn, np.zeros(Nvstars))
+            # (1 + dgd*G0)*biasV = biasV - dom*X*biasV for 6c, again with the terms of order w cancelled in closed form
+            b_dgdG0b = bVq - np.dot(dom_small, etaVvec + np.dot(U, np.dot(winv, bVn))) \
+                       - np.dot(U, np.dot(om2rot, np.dot(R, bVn)) + np.dot(M.T, np.dot(gU.T, bVq)))
         else:
             # update with omega2 ("small" omega2):
             G = np.dot(np.linalg.inv(np.eye(self.vkinetic.Nvstars) + np.dot(G, om2)), G)
@@ -1641,6 +1644,7 @@ class VacancyMediated(object):
             biasVvec += biasVvec_om2
             # 6b. GF pieces:
             etaVvec, etaSvec = np.dot(G, biasVvec), np.dot(G, biasSvec)
+            b_dgdG0b = biasVvec + np.dot(dgd, np.dot(G0, biasVvec))  # (1 + dgd*G0)*biasV for 6c
 
         outer_etaVvec, outer_etaSvec = np.dot(self.vkinetic.outer, etaVvec), np.dot(self.vkinetic.outer, etaSvec)
 
@@ -1652,12 +1656,10 @@ class VacancyMediated(object):
         if len(self.OSindices) > 0:
             etaV0 = -np.tensordot(self.OS_VB, etav, axes=((1, 2), (0, 1))) * np.sqrt(self.N)
             outer_etaV0 = np.dot(self.vkinetic.outer[:, :, self.OSindices, :][:, :, :, self.OSindices], etaV0)
-            G0db = np.dot(G0, biasVvec)  # G0*db
             # 2 eta0*db + 2 eta0*dgd*G0*db + eta0*dgd*eta0  (domega = delta_om + om2)
             # - etaV0*biasV0 (correction due to removing states)
             L1vv += np.dot(outer_etaV0,
-                           2 * np.dot(self.OSVfolddown, biasVvec)
-                           + 2 * np.dot(self.OSVfolddown, np.dot(dgd, G0db))
+                           2 * np.dot(self.OSVfolddown, b_dgdG0b)
                            + np.dot(np.dot(self.OSVfolddown, np.dot(dgd, self.OSVfolddown.T)), etaV0)
                            - biasVvec[self.OSindices]
                            ) / self.N
